@@ -22,6 +22,18 @@ def build_any(case):
     return result
 
 
+def _perturb(case):
+    n = len(case["vals"])
+    other = dict(case, vals=[[(3 * i) % 5 + 1, 1] for i in range(n)], dtype="i4")
+    if case.get("scan"):
+        other["out_dtype"] = None
+    else:
+        other.update(dtype="i8", fill=[-7, 1], min_count=2)
+        if case.get("req") is None:
+            other["req"] = sorted({c for c in case["codes"] if c >= 0})
+    build_any(other)
+
+
 def run_purity_case(case: dict) -> dict:
     from dask._task_spec import DataNode
 
@@ -69,6 +81,29 @@ def run_purity_case(case: dict) -> dict:
                 store[k] = sched.freeze(out)
             events.append({"ev": ev, "k": ident[k], "deps": [ident[d] for d in deps], "dig": sched.digest(out), "inb": inb, "ina": ina,
                            "kind": kind})
+    # tasks must not read state that a LATER flox call can change (registry objects, user Aggregation instances shared with
+    # the graph): build, lazily, the same reduction / scan on data of another dtype with another fill and min_count, then
+    # execute every task once more on the stored inputs; it must reproduce the stored value ("rerun" event)
+    try:
+        _perturb(case)
+    except Exception:  # noqa: BLE001  (a refusal of the perturbing call is fine: it only has to run flox's set-up code)
+        pass
+    for k in order:
+        node = graph[k]
+        if isinstance(node, DataNode) or k not in store:
+            continue
+        deps = sched.ordered_deps(node)
+        if any(d not in store for d in deps):
+            continue
+        inb = [sched.digest(store[d]) for d in deps]
+        try:
+            out = sched.run_node(node, store)
+        except Exception as e:  # noqa: BLE001
+            problems.append({"k": str(k), "ev": "rerun-after-other-call", "kind": sched.describe(node).get("kind"), "exc": type(e).__name__, "msg": str(e)[:200]})
+            continue
+        ina = [sched.digest(store[d]) for d in deps]
+        events.append({"ev": "rerun", "k": ident[k], "deps": [ident[d] for d in deps], "dig": sched.digest(out), "inb": inb, "ina": ina,
+                       "kind": sched.describe(node).get("kind"), "after_other_call": True})
     rec["events"] = events
     rec["problems"] = problems
     rec["ntasks"] = sum(1 for k in order if not isinstance(graph[k], DataNode))
